@@ -111,11 +111,12 @@ fn body_variants(b: &GoalSpec) -> Vec<Option<GoalSpec>> {
                 }
             }
         }
-        GoalSpec::Not(g) => {
+        GoalSpec::Not(g) | GoalSpec::Time(g) => {
+            let is_not = matches!(b, GoalSpec::Not(_));
             out.push(Some((**g).clone()));
             for var in body_variants(g) {
                 if let Some(var) = var {
-                    out.push(Some(GoalSpec::Not(Box::new(var))));
+                    out.push(Some(if is_not { GoalSpec::Not(Box::new(var)) } else { GoalSpec::Time(Box::new(var)) }));
                 }
             }
         }
